@@ -222,6 +222,13 @@ func init() {
 	add(&sub{Name: "L1x", Posted: pki.DERs(lx, i1, ax), Path: []*pki.Cert{lx, i1, ax, rootB}})
 	px := pre("p1x", i1)
 	add(&sub{Name: "P1x", Pre: true, Posted: pki.DERs(px, i1, ax), Path: []*pki.Cert{px, i1, ax, rootB}})
+	// the issuing CA re-issued: same name, same key, same key identifier, other bytes (here: no authority key identifier).
+	// Chains through it have the length and the key identifiers of chains through I1, and are other chains
+	i1r := det(pki.NewCA("C14 I1", pki.LoadKey("p256-2"), rootA, pki.CAOpts{NoAKI: true}))
+	p = path(leaf("l1ri", i1r))
+	add(&sub{Name: "L1ri", Posted: post(p, 2), Path: p})
+	p = path(pre("p1ri", i1r))
+	add(&sub{Name: "P1ri", Pre: true, Posted: post(p, 2), Path: p})
 	// a certificate and a precertificate longer than 64 KiB (an extension of 70000 bytes): sizes are not layouts
 	bigExt := make([]byte, 70000)
 	for i := range bigExt {
